@@ -38,27 +38,22 @@ pub fn decode(data: &[u8]) -> Option<Decoded> {
     Some(Decoded { start_fen: d.start_fen, moves: game.moves_uci(), sel })
 }
 
+/// Cheap cases only: the campaign lives on executions per second.
 fn depth_for(root: &Pos, sel: u8) -> u32 {
     let b = root.legal_moves().len().max(1);
-    let mut d = match sel % 8 {
+    match sel % 4 {
         0 => 1,
-        1 | 2 | 3 => 2,
-        4 | 5 | 6 => 3,
-        _ => 4,
-    };
-    if d == 4 {
-        if b <= 5 {
-            d = 6;
-        } else if b <= 8 {
-            d = 5;
-        } else if b > 14 {
-            d = 3;
+        1 | 2 => 2,
+        _ => {
+            if b <= 6 {
+                4
+            } else if b <= 14 {
+                3
+            } else {
+                2
+            }
         }
     }
-    if d == 3 && b > 30 {
-        d = 2;
-    }
-    d
 }
 
 pub fn run_bytes(data: &[u8], props: &str, rep: &mut Report) -> Result<(), (String, Violation)> {
@@ -80,7 +75,8 @@ pub fn run_bytes(data: &[u8], props: &str, rep: &mut Report) -> Result<(), (Stri
     }
     if want("C11") {
         let depth = depth_for(&root, d.sel);
-        let budget = 150_000;
+        let budget = 30_000;
+        c11::SENSITIVITY.store(false, std::sync::atomic::Ordering::Relaxed);
         match c11::compare(&d.start_fen, &d.moves, depth, budget, rep) {
             Ok(o) => {
                 if let Some(s) = o.skipped {
@@ -173,7 +169,7 @@ pub fn campaign(ctx: &Ctx, prop: &str, rep: &mut Report) {
         }
     }
     rep.class_n("libfuzzer:seed-files", n);
-    let t = fuzzplay::Target { bin_env: "RCE_FUZZ_SEARCH_BIN", max_len: 200, seed_dir: dir.clone(), dict: None, replay: replay_raw, nontrivial, sample: Some(sample_json) };
+    let t = fuzzplay::Target { bin_env: "RCE_FUZZ_SEARCH_BIN", max_len: 200, seed_dir: dir.clone(), dict: None, replay: replay_raw, nontrivial, sample: Some(sample_json), jobs_mode: true };
     fuzzplay::campaign_on(ctx, prop, rep, &t);
     let _ = std::fs::remove_dir_all(&dir);
 }
